@@ -33,17 +33,17 @@ structure GCfg where
   idiv : Nat
   fdiv : Nat
   odiv : Nat
-  sdiv : Int
+  sdiv : Nat
   psda : Int
   pins : List Nat
 deriving Repr, DecidableEq
 
 def gOdivs : List Nat := [2, 4, 8, 16, 32, 48, 64, 80, 96, 112, 128]
 
-/-- `max(list, key=margin)`: the FIRST element with the largest margin (the code's "highest frequency"). -/
+/-- `max(list, key=freq)`: the FIRST output with the highest frequency (and ITS margin). -/
 def gFreqMax : List Out → Option Out
   | [] => none
-  | o :: os => some (os.foldl (fun best x => if best.margin.lt x.margin then x else best) o)
+  | o :: os => some (os.foldl (fun best x => if best.freq.lt x.freq then x else best) o)
 
 /-- All candidate (diff, idiv, fdiv, odiv) in iteration order. -/
 def gCandidates (d : GDev) (r : GReq) (fm : Out) : List (Q × Nat × Nat × Nat) :=
@@ -52,7 +52,7 @@ def gCandidates (d : GDev) (r : GReq) (fm : Out) : List (Q × Nat × Nat × Nat)
     if pfd.lt d.pfdMin || d.pfdMax.lt pfd then [] else
     (pyRange 1 64).flatMap fun fdiv =>
       let outF := (r.clkin.mulNat fdiv).divNat idiv
-      let diff := (outF.sub fm.freq).abs
+      let diff := outF.absDiff fm.freq
       gOdivs.filterMap fun odiv =>
         if inRangeM d.vcoMin d.vcoMax r.vcoMargin (outF.mulNat odiv) && diff.le (fm.freq.mul fm.margin)
         then some (diff, idiv, fdiv, odiv) else none
@@ -68,8 +68,8 @@ def gPins (outF : Q) (fm : Out) : List Out → Bool → List Nat → Res (List N
   | o :: os, hasP, acc =>
     let th := (fm.freq.div o.freq).floor
     if th = 0 then .crash else
-    let rf := outF.div ⟨th, 1⟩
-    if ((rf.mul o.margin)).lt ((rf.sub o.freq).abs) then .rejected else
+    let rf := outF.divNat th
+    if ((rf.mul o.margin)).lt (rf.absDiff o.freq) then .rejected else
     if th = 1 then
       if o.phase.num = 0 then gPins outF fm os hasP (0 :: acc)
       else if hasP then .rejected else gPins outF fm os true (1 :: acc)
@@ -86,17 +86,17 @@ def gSearch (d : GDev) (r : GReq) : Res GCfg :=
       let outF := (r.clkin.mulNat fdiv).divNat idiv
       -- distinct non-zero phases
       let phases := (r.outs.filter (fun o => o.phase.num ≠ 0)).foldl
-        (fun (acc : List Q) o => if acc.any (fun p => p.beq o.phase) then acc else acc ++ [o.phase]) []
+        (fun (acc : List SQ) o => if acc.any (fun p => p.beq o.phase) then acc else acc ++ [o.phase]) []
       if phases.length ≥ 2 then .assertion else
       let psda : Int := match phases with
-        | [p] => (p.div ⟨45, 2⟩).floor               -- int(p // 22.5)
+        | [p] => (SQ.floor ⟨p.num * 2, p.den * 45⟩)          -- int(p // 22.5)
         | _ => 0
       let fdivs := (r.outs.map fun o => (fm.freq.div o.freq).floor).filter (· ≠ 1)
       if fdivs.length > 2 then .rejected else
       let dd := fdivs.filter (· ≠ 3)
       if (fdivs.length = 2 ∧ (fdivs.filter (· = 3)).length = 2) ∨ dd.length = 2 ∨
          (dd.length = 1 ∧ (dd.headD 0) % 2 ≠ 0) then .rejected else
-      let sdiv : Int := if dd.length = 1 then dd.headD 0 else 2
+      let sdiv : Nat := if dd.length = 1 then dd.headD 0 else 2
       match gPins outF fm r.outs false [] with
       | .ok pins => .ok ⟨idiv, fdiv, odiv, sdiv, psda, pins⟩
       | .rejected => .rejected
@@ -107,6 +107,6 @@ def gSearch (d : GDev) (r : GReq) : Res GCfg :=
 def gOscDiv (lo hi : Nat) (osc : Q) (o : Out) : Option Nat :=
   ((pyRange lo hi).reverse).find? fun dv =>
     let c := osc.divNat dv
-    (o.freq.mul (Q.one.sub o.margin)).le c && c.le (o.freq.mul (Q.one.add o.margin))
+    (o.freq.mul (Q.one.subT o.margin)).le c && c.le (o.freq.mul (Q.one.add o.margin))
 
 end Litex.Clock
